@@ -46,11 +46,24 @@ def directives (h : Header) : List (Str × Option Str) :=
     | none => (lowerASCII m, none)
     | some (n, a) => (lowerASCII n, some (unquote (trimOWS a)))
 
-def hasDirective (h : Header) (name : Str) : Bool := (directives h).any (·.1 = name)
+/-- A reading of Cache-Control: for a header list and a (lower-case) directive name, `none` =
+    absent, `some none` = present without argument, `some (some a)` = present with argument `a`
+    (quotes removed). The RFC-level reading is `rfc`; the theorems instantiate the model's. -/
+structure Reader where
+  read : Header → Str → Option (Option Str)
 
-/-- the argument of the LAST occurrence of the directive -/
-def directiveArg (h : Header) (name : Str) : Option (Option Str) :=
-  ((directives h).reverse.find? (·.1 = name)).map (·.2)
+/-- the RFC reading: the argument of the LAST occurrence, except that an unqualified no-cache
+    (the stricter form) is not relaxed by another occurrence -/
+def rfcRead (h : Header) (name : Str) : Option (Option Str) :=
+  let occ := (directives h).filter (·.1 = name)
+  if name = (str% "no-cache") && occ.any (fun d => d.2 = none || d.2 = some []) then some none
+  else occ.getLast?.map (·.2)
+
+def rfc : Reader := ⟨rfcRead⟩
+
+def hasDirective (R : Reader) (h : Header) (name : Str) : Bool := (R.read h name).isSome
+
+def directiveArg (R : Reader) (h : Header) (name : Str) : Option (Option Str) := R.read h name
 
 /-- delta-seconds (RFC 9111 §1.2.2): 1*DIGIT; values too large to represent act as the largest
     representable one (which is ≥ 2^31). Result in nanoseconds. -/
@@ -58,8 +71,8 @@ def deltaSeconds (s : Str) : Option Int :=
   if s.isEmpty || !s.all isDigit then none
   else some (min (natOfDigits s : Int) maxDeltaSeconds * nsPerSec)
 
-def directiveSeconds (h : Header) (name : Str) : Option Int :=
-  match directiveArg h name with
+def directiveSeconds (R : Reader) (h : Header) (name : Str) : Option Int :=
+  match directiveArg R h name with
   | some (some a) => deltaSeconds a
   | _ => none
 
@@ -70,6 +83,10 @@ structure Stored where
   header : Header
   requestTime : Int
   responseTime : Int
+
+/-- the stored response an entry stands for -/
+def storedOfEntry (e : Entry) : Stored :=
+  { status := e.resp.status, header := e.resp.header, requestTime := e.requestedAt, responseTime := e.receivedAt }
 
 def httpTime (parse : Str → Option Int) (h : Header) (name : Str) : Option Int :=
   let v := Header.get h name
@@ -93,34 +110,34 @@ def heuristicallyCacheable : List Nat := [200, 203, 204, 206, 300, 301, 308, 404
 /-- §4.2.1–4.2.2 for a private cache: max-age; else Expires − Date; else at most 10 % of
     Date − Last-Modified, only when no explicit expiry is present and the status allows
     heuristics (or the response is marked public). An explicit but invalid expiry gives 0. -/
-def freshnessLifetime (parse : Str → Option Int) (s : Stored) : Int :=
-  if hasDirective s.header (str% "max-age") then (directiveSeconds s.header (str% "max-age")).getD 0
+def freshnessLifetime (R : Reader) (parse : Str → Option Int) (s : Stored) : Int :=
+  if hasDirective R s.header (str% "max-age") then (directiveSeconds R s.header (str% "max-age")).getD 0
   else if Header.has s.header sExpires then
     match httpTime parse s.header sExpires, httpTime parse s.header sDate with
     | some e, some d => max 0 (sat (e - d))
     | _, _ => 0
-  else if heuristicallyCacheable.contains s.status || hasDirective s.header (str% "public") then
+  else if heuristicallyCacheable.contains s.status || hasDirective R s.header (str% "public") then
     match httpTime parse s.header sLastModified, httpTime parse s.header sDate with
     | some lm, some d => max 0 (sat (d - lm)) / 10
     | _, _ => 0
   else 0
 
-def isFresh (parse : Str → Option Int) (s : Stored) (now : Int) : Bool :=
-  currentAge parse s now < freshnessLifetime parse s
+def isFresh (R : Reader) (parse : Str → Option Int) (s : Stored) (now : Int) : Bool :=
+  currentAge parse s now < freshnessLifetime R parse s
 
 /-- staleness = age − lifetime (meaningful when not fresh) -/
-def staleness (parse : Str → Option Int) (s : Stored) (now : Int) : Int :=
-  currentAge parse s now - freshnessLifetime parse s
+def staleness (R : Reader) (parse : Str → Option Int) (s : Stored) (now : Int) : Int :=
+  currentAge parse s now - freshnessLifetime R parse s
 
 /-- "staleness below N", with saturating arithmetic: age < lifetime + N -/
-def withinWindow (parse : Str → Option Int) (s : Stored) (now : Int) (n : Int) : Bool :=
-  currentAge parse s now < sat (freshnessLifetime parse s + n)
+def withinWindow (R : Reader) (parse : Str → Option Int) (s : Stored) (now : Int) (n : Int) : Bool :=
+  currentAge parse s now < sat (freshnessLifetime R parse s + n)
 
 /-! ### what a request permits / demands -/
 
 /-- request max-stale allows age `age` for a response of lifetime `life` -/
-def maxStaleCovers (reqH : Header) (age life : Int) : Bool :=
-  match directiveArg reqH (str% "max-stale") with
+def maxStaleCovers (R : Reader) (reqH : Header) (age life : Int) : Bool :=
+  match directiveArg R reqH (str% "max-stale") with
   | none => false
   | some none => true
   | some (some a) => if a.isEmpty then true else match deltaSeconds a with
@@ -128,32 +145,33 @@ def maxStaleCovers (reqH : Header) (age life : Int) : Bool :=
     | none => false
 
 /-- the stored response carries no-cache without field names -/
-def noCacheUnqualified (h : Header) : Bool :=
-  (directives h).any fun d => d.1 = (str% "no-cache") && (d.2 = none || d.2 = some [])
+def noCacheUnqualified (R : Reader) (h : Header) : Bool :=
+  match R.read h (str% "no-cache") with
+  | some none => true
+  | some (some a) => a.isEmpty
+  | none => false
 
-/-- field names listed by qualified no-cache directives (canonical spelling is the caller's business) -/
-def noCacheFields (h : Header) : List Str :=
-  (directives h).flatMap fun d =>
-    if d.1 = (str% "no-cache") then match d.2 with
-      | some a => ((splitList a false []).map trimOWS).filter (!·.isEmpty)
-      | none => []
-    else []
+/-- field names listed by a qualified no-cache directive -/
+def noCacheFields (R : Reader) (h : Header) : List Str :=
+  match R.read h (str% "no-cache") with
+  | some (some a) => ((splitList a false []).map trimOWS).filter (!·.isEmpty)
+  | _ => []
 
 /-- validation that nothing may waive (C02): unqualified response no-cache, stale + must-revalidate,
     request no-cache -/
-def strictValidate (parse : Str → Option Int) (reqH : Header) (s : Stored) (now : Int) : Bool :=
-  noCacheUnqualified s.header ||
-  (!isFresh parse s now && hasDirective s.header (str% "must-revalidate")) ||
-  hasDirective reqH (str% "no-cache")
+def strictValidate (R : Reader) (parse : Str → Option Int) (reqH : Header) (s : Stored) (now : Int) : Bool :=
+  noCacheUnqualified R s.header ||
+  (!isFresh R parse s now && hasDirective R s.header (str% "must-revalidate")) ||
+  hasDirective R reqH (str% "no-cache")
 
 /-- the request carries a max-age that the response's age exceeds, also after the request's own
     max-stale allowance -/
-def requestMaxAgeExceeded (parse : Str → Option Int) (reqH : Header) (s : Stored) (now : Int) : Bool :=
-  match directiveSeconds reqH (str% "max-age") with
+def requestMaxAgeExceeded (R : Reader) (parse : Str → Option Int) (reqH : Header) (s : Stored) (now : Int) : Bool :=
+  match directiveSeconds R reqH (str% "max-age") with
   | none => false
   | some m =>
     let age := currentAge parse s now
-    age ≥ m && !maxStaleCovers reqH age m
+    age ≥ m && !maxStaleCovers R reqH age m
 
 /-! ### hop-by-hop fields (RFC 9110 §7.6.1, RFC 9111 §3.1) -/
 
